@@ -39,10 +39,12 @@ OBJS = {
     "bytes_rand": random.Random(1).randbytes(3000),
     "nested": {"k%d" % i: list(range(i)) for i in range(30)},
     "none": None,
+    "uni_small": ["h\u00e9llo", "\u65e5\u672c\u8a9e" * 10, {"k\u00e9y": "\u00fc" * 50}],
+    "uni_70k": "\u00e9" * 35000 + "x",          # read outside a pickle frame: a cut inside a multi-byte character
     "multi_block": [random.Random(2).randbytes(70000), "tail"],
 }
 COMPS = [0, ["zlib", 1], ["zlib", 9], ["gzip", 3], ["bz2", 3], ["lzma", 3], ["xz", 3]]
-PROTOS = (0, 2, 4, 5)
+PROTOS = (0, 2, 3, 4, 5)
 SUFFIXES = ["zero", "rnd", "self", "other"]
 
 
@@ -79,7 +81,7 @@ def plan(tier, seed):
     small_limit = 600 if tier == "quick" else 4096
     for oname in OBJS:
         for comp in COMPS:
-            for proto in PROTOS if tier == "thorough" else (2, 5):
+            for proto in PROTOS if tier == "thorough" else (2, 3, 5):
                 data = dump_bytes(OBJS[oname], comp, proto)
                 L = len(data)
                 if L <= small_limit:
